@@ -105,3 +105,29 @@ package sniffing
 //@   at return 2 assert calls("Buffer).Read") == 1
 //@   at return 3 assert calls("Buffer).Read") == 0 && n == 0
 //@   at return 4 assert calls("Buffer).Read") == 0
+
+// HTTP: the request line must start with a printable byte and a known method within the first 12 bytes,
+// else "not applicable"; after that the Host header decides. Header scan: lines are cut at CRLF without
+// ever reading outside the buffer, the key compared with "host" is the trimmed text before the first ':'
+// of a line, and the value handed back is the trimmed text after it.
+// (httpLineSep is a package variable initialised to "\r\n" and never reassigned: its length is assumed)
+//@ func sniffHTTPHostHeader
+//@   requires len(httpLineSep) == 2
+//@   dyncalls noeffect
+//@   modifies *
+//@   at call bytes.Index#1 assert a0.$base == data.$base && a0.$off == data.$off + lineStart && len(a0) == len(data) - lineStart && a1.$base == httpLineSep.$base
+//@   at call bytes.Cut#1 assert a0.$base == data.$base && a1.$base == httpHeaderSep.$base
+//@   at call bytes.EqualFold#1 assert a1.$base == httpHeaderHost.$base && len(a1) == len(httpHeaderHost)
+//@   at return 1 assert result1 == ErrNotFound && result0 == ""
+//@   at return 2 assert result1 == nil && result0 != ""
+//@   at return 3 assert result1 == ErrNotFound
+//@   loop 1
+//@     invariant 0 <= lineStart && lineStart <= len(data) + 1
+//@     invariant lineStart == 0 || lineStart == len(data) + 1 || (lineStart >= 2 && data[lineStart-2] == httpLineSep[0] && data[lineStart-1] == httpLineSep[1])
+
+//@ func (*Sniffer).SniffHttp
+//@   requires s.buf != nil
+//@   dyncalls noeffect
+//@   modifies *
+//@   at return 1 assert s.buf.Len() == 0 || !unicode.IsPrint(s.buf.Bytes()[0])
+//@   at call sniffHTTPHostHeader#1 assert a0.$base == s.buf.Bytes().$base && len(a0) == s.buf.Len()
